@@ -19,6 +19,7 @@ RULES = {
     "C16.R3b": svrules.r3b_finished_test,
     "C16.R3": svrules.r3_no_panic_under_lock,
     "C16.R4": svrules.r4_no_reentrancy,
+    "C16.R4b": lambda ctx: svrules.guards_stay_local(ctx, "C16.R4b"),
     "C16.R5b": lambda ctx: svrules.fresh_views(ctx, "C16.R5b"),
     "C16.R5": lambda ctx: svrules.r5_monotone(ctx, "C16.R5"),
 }
